@@ -844,3 +844,98 @@ Proof.
   - intros br. destruct (_ && _) eqn:E; [|discriminate]. intros Hbr. inversion Hbr; subst br. cbn [px py].
     split; lia.
 Qed.
+
+(* ---- row padding, byte form: pixel (x,y) is item x of the y-th slice of bytes_per_row bytes ---------- *)
+Definition row_bytes (img : image_raw) (y : Z) : list Z :=
+  let bpr := bytes_per_row (sw (ir_size img)) (ir_bpp img) in
+  firstn (Z.to_nat bpr) (skipn (Z.to_nat (y * bpr)) (ir_data img)).
+
+Lemma nth_error_skipn_add {A} n (l : list A) m : nth_error (skipn n l) m = nth_error l (n + m).
+Proof.
+  revert l. induction n as [|n IH]; intros l; [reflexivity|].
+  destruct l as [|a l]; cbn [skipn Nat.add nth_error]; [destruct m; reflexivity|apply IH].
+Qed.
+
+Lemma nth_error_firstn_lt {A} n (l : list A) m : (m < n)%nat -> nth_error (firstn n l) m = nth_error l m.
+Proof.
+  revert l m. induction n as [|n IH]; intros l m Hm; [lia|].
+  destruct l as [|a l]; [destruct m; reflexivity|]. destruct m as [|m]; [reflexivity|].
+  cbn [firstn nth_error]. apply IH. lia.
+Qed.
+
+Lemma skipn_skipn_add {A} a b (l : list A) : skipn b (skipn a l) = skipn (a + b) l.
+Proof.
+  revert l. induction a as [|a IH]; intros l; [reflexivity|].
+  destruct l as [|x l]; [rewrite !skipn_nil; reflexivity|]. cbn [skipn Nat.add]. apply IH.
+Qed.
+
+Lemma slice_slice {A} a b n m (l : list A) :
+  (b + m <= n)%nat -> firstn m (skipn b (firstn n (skipn a l))) = firstn m (skipn (a + b) l).
+Proof.
+  intros H. rewrite skipn_firstn_comm, firstn_firstn, skipn_skipn_add. f_equal. lia.
+Qed.
+
+Lemma sub_byte_row (ppb : Z) (data : list Z) bpr x y :
+  0 < ppb -> 0 <= y -> 0 <= x < bpr * ppb ->
+  nth_error data (Z.to_nat ((y * (bpr * ppb) + x) / ppb)) =
+  nth_error (firstn (Z.to_nat bpr) (skipn (Z.to_nat (y * bpr)) data)) (Z.to_nat (x / ppb)) /\
+  (y * (bpr * ppb) + x) mod ppb = x mod ppb.
+Proof.
+  intros Hp Hy Hx.
+  assert (E : (y * (bpr * ppb) + x) / ppb = y * bpr + x / ppb).
+  { replace (y * (bpr * ppb) + x) with (x + (y * bpr) * ppb) by ring. rewrite Z.div_add by lia. lia. }
+  assert (0 <= x / ppb < bpr).
+  { split; [apply Z.div_pos; lia|]. apply Z.div_lt_upper_bound; lia. }
+  assert (0 <= y * bpr) by nia.
+  split.
+  - rewrite E, nth_error_firstn_lt by lia. rewrite nth_error_skipn_add. f_equal. lia.
+  - replace (y * (bpr * ppb) + x) with (x + (y * bpr) * ppb) by ring. apply Z.mod_add. lia.
+Qed.
+
+Lemma multi_byte_row {A} (k : Z) (data : list Z) w x y (f : list Z -> A) :
+  0 < k -> 0 <= y -> 0 <= x < w -> (y + 1) * (w * k) <= Z.of_nat (length data) ->
+  let load := fun (buffer : list Z) (index : Z) =>
+    if index * k <=? Z.of_nat (length buffer) then
+      let rest := skipn (Z.to_nat (index * k)) buffer in
+      if k <=? Z.of_nat (length rest) then Some (f (firstn (Z.to_nat k) rest)) else None
+    else None in
+  load data (y * w + x) = load (firstn (Z.to_nat (w * k)) (skipn (Z.to_nat (y * (w * k))) data)) x.
+Proof.
+  intros Hk Hy Hx Hl load. unfold load. cbv zeta.
+  assert (0 <= y * w) by nia. assert (0 <= x * k) by nia. assert (0 <= y * (w * k)) by nia.
+  assert ((x + 1) * k <= w * k) by nia.
+  assert (E0 : (y * w + x) * k = y * (w * k) + x * k) by ring.
+  rewrite !firstn_length, !skipn_length, firstn_length, skipn_length.
+  destruct (_ <=? _) eqn:E1; [|exfalso; lia].
+  destruct (k <=? _) eqn:E2; [|exfalso; lia].
+  destruct (x * k <=? _) eqn:E3; [|exfalso; lia].
+  destruct (k <=? Z.of_nat (Nat.min _ _ - _)) eqn:E4; [|exfalso; lia].
+  f_equal. f_equal. rewrite slice_slice by lia. f_equal. f_equal. lia.
+Qed.
+
+Theorem pixel_row_layout img x y :
+  img_ok img -> 0 <= x < sw (ir_size img) -> 0 <= y < sh (ir_size img) ->
+  raw_pixel img (P x y) = raw_load (ir_bpp img) (ir_alt img) (row_bytes img y) x /\
+  Z.of_nat (length (row_bytes img y)) = bytes_per_row (sw (ir_size img)) (ir_bpp img).
+Proof.
+  intros H Hx Hy. destruct (pixel_layout img x y H Hx Hy) as (-> & _ & _).
+  destruct img as [data [w h] bpp alt]. unfold img_ok, row_bytes, data_width, size_ok, bound in *.
+  cbn [ir_bpp ir_size ir_data ir_alt sw sh] in *. destruct H as (Hb & Hs & Hl).
+  assert (Hlen : forall bpr, 0 <= bpr -> Z.of_nat (length data) = bpr * h ->
+            Z.of_nat (length (firstn (Z.to_nat bpr) (skipn (Z.to_nat (y * bpr)) data))) = bpr).
+  { intros bpr Hb0 Hd. rewrite firstn_length, skipn_length. nia. }
+  split; [|apply Hlen; [unfold bytes_per_row; bpp_cases Hb; subst bpp; lia|exact Hl]].
+  clear Hlen. unfold raw_load, bit_position, get_byte, bytes_per_row in *.
+  bpp_cases Hb; subst bpp; norm_consts.
+  - destruct (sub_byte_row 8 data ((w * 1 + 7) / 8) x y) as (-> & ->); try lia. reflexivity.
+  - destruct (sub_byte_row 4 data ((w * 2 + 7) / 8) x y) as (-> & ->); try lia. reflexivity.
+  - destruct (sub_byte_row 2 data ((w * 4 + 7) / 8) x y) as (-> & ->); try lia. reflexivity.
+  - replace ((w * 8 + 7) / 8) with w in * by lia.
+    rewrite nth_error_firstn_lt by lia. rewrite nth_error_skipn_add. f_equal. nia.
+  - replace ((w * 16 + 7) / 8) with (w * 2) in * by lia.
+    apply (multi_byte_row 2 data w x y (fun bytes => if alt then from_be_bytes bytes else from_le_bytes bytes)); nia.
+  - replace ((w * 24 + 7) / 8) with (w * 3) in * by lia.
+    apply (multi_byte_row 3 data w x y (fun bytes => if alt then from_be_bytes bytes else from_le_bytes bytes)); nia.
+  - replace ((w * 32 + 7) / 8) with (w * 4) in * by lia.
+    apply (multi_byte_row 4 data w x y (fun bytes => if alt then from_be_bytes bytes else from_le_bytes bytes)); nia.
+Qed.
